@@ -124,7 +124,15 @@ class CallMixin:
             if attr in ("keys", "values", "items", "get"):
                 self.typing_assumptions += 1          # receiver of a dict-only method is viewed as a dict
                 return SV(None, "pyfunc", py=("method", SV(obj.t, "dict"), attr))
-            return self.read_attr(obj, attr, st, fr)
+            # a name that is a @property in some classes and a plain attribute in others: dispatch on the run-time class
+            res = self.read_attr(obj, attr, st, fr)
+            for r in self.property_roots(attr):
+                cond = self.voc.isinstance_(self.box(obj), r)
+                got = self.under(st, cond, lambda r=r: self.get_attr(SV(obj.t, "obj:" + r), attr, st, fr, node))
+                if got.t is None:
+                    raise Untranslatable(f"attribute {attr} of a value of unknown class")
+                res = self.ite(cond, got, res)
+            return res
         if obj.pt == "none":
             self.may_raise(st, fr, "AttributeError", z3.BoolVal(False), node, "none-attr")
             return self.fresh_sv("undef")
@@ -147,6 +155,10 @@ class CallMixin:
             roots = [c for c in definers if not any(d != c and d in self.repo.classes[c].mro for d in definers)]
             cache[attr] = roots[0] if len(roots) == 1 else None
         return cache[attr]
+
+    def property_roots(self, attr: str):
+        definers = [c for c, ci in self.repo.classes.items() if "." not in c and attr in ci.methods and "property" in ci.methods[attr].decorators]
+        return [c for c in definers if not any(d != c and d in self.repo.classes[c].mro for d in definers)]
 
     def unique_property_root(self, attr: str):
         """the single class defining @property `attr`, provided no class in the package also uses `attr` as a plain instance attribute"""
@@ -474,12 +486,24 @@ class CallMixin:
             pass
         self.bind_target(g.target, elem, st, fr, container=src)
         fr.in_comp = getattr(fr, "in_comp", 0) + 1
+        fr.comp_index = getattr(fr, "comp_index", []) + [j0]
+        outer_mod = getattr(fr, "comp_modified", None)
+        fr.comp_modified = set()
+        heap_before = dict(st.heap)
         try:
             conds = [self.evb(c, st, fr) for c in g.ifs]
             cond = z3.And(conds) if conds else z3.BoolVal(True)
             val = self.under(st, cond, lambda: self.ev(node.elt, st, fr)) if conds else self.ev(node.elt, st, fr)
         finally:
             fr.in_comp -= 1
+            fr.comp_index = fr.comp_index[:-1]
+        modified_here = fr.comp_modified
+        fr.comp_modified = outer_mod if outer_mod is not None else set()
+        fr.comp_modified |= modified_here
+        # after the whole comprehension the attributes touched by its calls hold unknown values
+        st.heap = heap_before
+        for attr in modified_here:
+            st.heap[attr] = self.fresh(f"H_{attr}", z3.ArraySort(v.Val, v.Val))
         body_facts = st.facts[n_f + 1:]
         del st.facts[n_f:]
         st.env = saved_env
@@ -516,6 +540,12 @@ class CallMixin:
             st.facts.append(z3.ForAll([x], z3.Implies(v.shas(R, x), z3.And(0 <= wit(x), wit(x) < v.slen(seq.t),
                                                                           z3.substitute(z3.And(cond, x == self.box(val)), (e, v.sat(seq.t, wit(x))), (j0, wit(x))))),
                                       patterns=[v.shas(R, x)]))
+            # index-based view: every position of the result comes from a position of the source that passed the filter (order kept)
+            widx = v.fn(f"compidx!{R}", z3.IntSort(), z3.IntSort())
+            kk = self.bv("ck", z3.IntSort())
+            st.facts.append(z3.ForAll([kk], z3.Implies(z3.And(0 <= kk, kk < v.slen(R)), z3.And(
+                0 <= widx(kk), widx(kk) < v.slen(seq.t),
+                z3.substitute(z3.And(cond, v.sat(R, kk) == self.box(val)), (e, v.sat(seq.t, widx(kk))), (j0, widx(kk))))), patterns=[v.sat(R, kk)]))
             self.comp_info[R.get_id()] = ("filter", seq, e, j0, val, cond, body_facts)
         out = SV(R, "list")
         out.py = ("comp", seq, e, j0, val, cond, body_facts, rpt)
